@@ -11,6 +11,18 @@ CHECKS = {
    design="5 (C17), 4.4",
    note="trusts the projection (host log of every observation and thunk run), cooperative scheduling on one OS thread, and Conc.tla with Ideal=TRUE as the contract; walks with resume of a thread that died with an error are unspecified by the property and not replayed here (C06 covers crashes)",
    technique="TLC model checking of Conc.tla + replay of TLC walks into the VM (spec->impl conformance)"),
+ "C13": dict(
+   level="model_checking",
+   text="Heap.tla (thread tree, per-thread heaps, deep clone with the generation short-cut, cells, channels, host moves between related / sibling / unrelated threads and a second VM, collection, VM drop) is model-checked per transfer route for Isolation, NoDangling, CloneFaithful and CollectExact; TLC walks are executed on real VMs and after every step the real object graph (structure, sharing, owning heap of every object, owner of every cell, freed flags) is compared with the model state, and every pointer edge Trace reaches is checked against the real heap tree. Spec mutants (no full clone for unrelated threads, store without clone, spawn_on) are rejected by the invariants.",
+   design="5 (C13), 4.2",
+   note="trusts the projection hooks (heap id / freed flag in the GC header, read-only accessors of cells and queues) and the harness' structural traversal; closures / arrays as value shapes are exercised by the program-level checks, the Heap walks use records, cells and channel ends",
+   technique="TLC model checking of Heap.tla + step-by-step replay of TLC walks on real VMs with graph-isomorphism and heap-ownership comparison"),
+ "C05": dict(
+   level="model_checking",
+   text="Heap.tla is model-checked for NoDangling and CollectExact (a collection frees exactly the unreachable objects of the swept heaps); TLC walks with collections placed by the model at every position are executed on real VMs, additionally under collect-at-every-allocation, with freed blocks quarantined and poisoned: every object the model says is reachable must be intact and every object it says was reclaimed must be flagged freed after the collection.",
+   design="5 (C05), 4.2",
+   note="trusts the GC header hooks (freed flag, quarantine) and that quarantine does not change reachability; program-level GC-stress replay of the Lang corpus is part of the C01 family of checks",
+   technique="TLC model checking of Heap.tla + replay of TLC walks under forced GC schedules with freed-block poisoning"),
 }
 NOT_BUILT = "check not built yet (work in progress; see DESIGN.md section 5)"
 NA = {}
